@@ -19,7 +19,7 @@ def stdClass (env : Env) (t : T) (op : Op) : String :=
      | .isExec _ | .isReadonly _ | .uid _ | .gid _ | .owner _ => "S6_metadata_follows_link"
      | .writeLines _ _ | .appendLines _ _ | .appendLine _ _ => "empty_lines_noop"
      | .moveP _ _ => "S8_move_links"
-     | .paths _ | .dirs _ | .files _ | .allPaths _ | .allDirs _ | .allFiles _ => "S7_listing_links"
+     | .paths _ | .dirs _ | .files _ | .allPaths _ | .allDirs _ | .allFiles _ => "S7_keysRT"
      | .chown _ _ _ | .chownB _ _ => "S16_chown_follows_link"
      | .chmod _ _ | .chmodB _ _ => "S11_chmod"
      | _ => "opOk")
